@@ -535,8 +535,19 @@ def run_property(prop, tier, seed, only=None):
         r = run_shard(st, b, tier, seed, 0, od)
         return r["report"]
 
+    # the reference models must reproduce the official known-answer vectors (no crate involved)
+    if native_probe:
+        try:
+            st = subprocess.run(native_probe + ["selftest"], stdout=subprocess.PIPE, stderr=subprocess.STDOUT, text=True, timeout=600)
+            if st.returncode != 0:
+                inconclusive.append("reference-model self-test failed: %s" % st.stdout.strip()[-400:])
+            else:
+                assumptions.add("reference models self-test: " + st.stdout.strip().splitlines()[-1])
+        except Exception as e:  # noqa
+            inconclusive.append("reference-model self-test could not run: %s" % e)
+
     import types
-    helpers = types.SimpleNamespace(run_single=run_single, base_env=base_env, BUILD=BUILD, ROOT=ROOT, log=log, only=only)
+    helpers = types.SimpleNamespace(native_probe=native_probe, run_single=run_single, base_env=base_env, BUILD=BUILD, ROOT=ROOT, log=log, only=only)
     extra = plans.post_process(prop, tier, seed, steps, monitors_out, helpers)
     if extra:
         for v in extra.get("violations", []):
